@@ -18,7 +18,9 @@ TRUSTED = ["dict.__getitem__ calls __missing__ only on a miss (CPython)"]
 def tasks(tier):
     from . import _core
 
-    return _tm.mtm_missing_tasks(("plain", "coded", "empty")) + _tm.typemap_tasks()[1:2] + _tm.frame_tasks() + _tm.state_tasks() + _core.compile_parent_tasks() + _core.compile_tasks()
+    from contracts import callsites_c
+
+    return [dict(name="frames.rebuild", build=callsites_c.task(), mode="F")] + _tm.mtm_missing_tasks(("plain", "coded", "empty")) + _tm.typemap_tasks()[1:2] + _tm.frame_tasks() + _tm.state_tasks() + _core.compile_parent_tasks() + _core.compile_tasks()
 
 
 def conformance(tier):
